@@ -55,6 +55,7 @@ var cmds = map[string]func([]string){
 	"lifecycle-child":       lifecycle.Child,
 	"numeric-cases":         numeric.Cases,
 	"numeric-check":         numeric.Check,
+	"wexec-shrink":          wexec.Shrink,
 	"wexec-diff":            wexec.MainDiff,
 	"wexec-diff-child":      wexec.ChildDiff,
 	"wexec-compile":         wexec.MainCompile,
